@@ -23,6 +23,7 @@ import (
 	"github.com/vimeo/dials"
 	djson "github.com/vimeo/dials/decoders/json"
 	"github.com/vimeo/dials/sources/file"
+	"github.com/vimeo/dials/sourcewrap"
 )
 
 type c17TwoCfg struct {
@@ -358,5 +359,108 @@ func c17RunSameDir(c *Ctx, h c17Hist, base string) *c17Out {
 	o.nontrivial = len(h.Ops) >= 3
 	o.canon = fmt.Sprint(h.Init, h.Ops)
 	cancel()
+	return o
+}
+
+// ---------- mode "blank": the watching source is installed later, through sourcewrap.Blank ----------
+//
+// (how ez plugs in the config file).  The context of the SetSource call is a start-up deadline that ends right after
+// the call returns; the Config context lives on.  The file keeps being followed - rename-over, in-place rewrite,
+// temporarily malformed content -, and cancelling the CONFIG context is what releases the watcher's goroutine.
+
+func c17GenBlank(r *RNG, id string) c17Hist {
+	h := c17Hist{ID: id, Mode: "blank", Layout: "plain", Init: fmt.Sprintf(`{"A":"%s.0","N":0}`, id), InitValid: true}
+	n := 2 + r.Intn(3)
+	for k := 1; k <= n; k++ {
+		op := c17Op{Mech: []string{"rename-over", "rewrite"}[r.Intn(2)], What: "new", Valid: true, Content: fmt.Sprintf(`{"A":"%s.%d","N":%d}`, id, k, k), PauseUS: r.Intn(3000)}
+		if k < n && r.Chance(25) {
+			op.Valid, op.Content = false, `{"A": `
+		}
+		h.Ops = append(h.Ops, op)
+	}
+	return h
+}
+
+func c17RunBlank(c *Ctx, h c17Hist, base string) *c17Out {
+	o := &c17Out{hist: h, counts: map[string]int{}}
+	dir := filepath.Join(base, h.ID)
+	path := filepath.Join(dir, "config.json")
+	defer os.RemoveAll(dir)
+	os.MkdirAll(dir, 0o755)
+	if err := os.WriteFile(path, []byte(h.Init), 0o644); err != nil {
+		o.add("violation", "harness: cannot set up the temp directory: "+err.Error(), nil, nil, nil)
+		return o
+	}
+	ws, err := file.NewWatchingSource(path, &djson.Decoder{})
+	if err != nil {
+		o.add("violation", "NewWatchingSource failed: "+err.Error(), nil, nil, nil)
+		return o
+	}
+	ctx, cancel := context.WithCancel(context.Background())
+	defer cancel()
+	b := &sourcewrap.Blank{}
+	var d *dials.Dials[c17JSONCfg]
+	pprof.Do(ctx, pprof.Labels("c17", h.ID), func(ctx context.Context) {
+		d, err = dials.Config(ctx, &c17JSONCfg{}, b)
+	})
+	if err != nil {
+		o.add("violation", "dials.Config with a Blank failed: "+err.Error(), nil, nil, nil)
+		return o
+	}
+	sctx, scancel := context.WithTimeout(ctx, 5*time.Second)
+	err = b.SetSource(sctx, ws)
+	scancel() // the start-up deadline is over; the Config context is not
+	if err != nil {
+		o.add("violation", "Blank.SetSource(watching file source) failed: "+err.Error(), nil, nil, nil)
+		return o
+	}
+	want := func(s string) c17JSONCfg {
+		var v c17JSONCfg
+		json.Unmarshal([]byte(s), &v)
+		return v
+	}
+	last := h.Init
+	if got := *d.View(); got != want(last) {
+		o.add("violation", "blank mode: SetSource returned nil but the view is not the file's content", want(last), got, nil)
+		return o
+	}
+	for i, op := range h.Ops {
+		c17Sleep(op.PauseUS)
+		if op.Mech == "rename-over" {
+			tmp := path + ".tmp"
+			os.WriteFile(tmp, []byte(op.Content), 0o644)
+			os.Rename(tmp, path)
+		} else {
+			os.WriteFile(path, []byte(op.Content), 0o644)
+		}
+		if !op.Valid {
+			continue
+		}
+		last = op.Content
+		t0 := time.Now()
+		for *d.View() != want(last) && time.Since(t0) < c17Deadline {
+			time.Sleep(c17Poll)
+		}
+		if got := *d.View(); got != want(last) {
+			o.add("violation", fmt.Sprintf("blank mode: the watching source was installed through a Blank whose SetSource context has ended (the Config context is alive): after change %d (%s) the view did not converge to the file's content within the deadline", i+1, op.Mech), want(last), got, nil)
+			return o
+		}
+		if conv := time.Since(t0); conv > o.converged {
+			o.converged = conv
+		}
+	}
+	// the Config context releases the watcher
+	cancel()
+	done := make(chan struct{})
+	go func() { ws.WG.Wait(); close(done) }()
+	select {
+	case <-done:
+	case <-time.After(c17Deadline):
+		o.add("violation", "blank mode: the watcher's goroutine was not released after the Config context was cancelled", nil, nil, nil)
+		return o
+	}
+	o.count("blank/followed-and-released")
+	o.nontrivial = len(h.Ops) >= 2
+	o.canon = fmt.Sprint(h.Init, h.Ops)
 	return o
 }
